@@ -189,9 +189,3 @@ Qed.
 Theorem capPow2N_overflow : capPow2N (2147483649)%N = 0%N.
 Proof. vm_compute. reflexivity. Qed.
 
-Print Assumptions cap_pow2_ge.
-Print Assumptions cap_pow2_pow.
-Print Assumptions cap_pow2_tight.
-Print Assumptions cap_pow2_zero.
-Print Assumptions capPow2N_correct.
-Print Assumptions capPow2N_overflow.
